@@ -57,12 +57,16 @@ def walk(
     parents: List[h.Instance],
     conns: Optional[Dict[str, h.Signal]] = None,
     reserved: Optional[Dict[str, h.Signal]] = None,
+    made: Optional[Dict[str, tuple]] = None,
 ) -> Generator[FlattenedInstance, None, None]:
     if conns is None:
         conns = {**m.signals, **m.ports}
     if reserved is None:
         # The names of the top-level Signals, which keep their names
         reserved = conns
+    if made is None:
+        # The path-names given to internal Signals so far, and where each came from
+        made = {}
     for inst in m.instances.values():
         new_conns = {}
         new_parents = parents + [inst]
@@ -87,6 +91,10 @@ def walk(
                 # The path-name of this internal Signal is already taken by a top-level one; using it would short the two.
                 msg = f"Cannot flatten: internal signal name `{new_sig_name}` collides with a top-level Signal"
                 raise RuntimeError(msg)
+            elif made.setdefault(new_sig_name, (tuple(map(id, parents)), key)) != (tuple(map(id, parents)), key):
+                # Another internal Signal, at another place in the hierarchy, has this path-name already; using it would short the two.
+                msg = f"Cannot flatten: internal signal name `{new_sig_name}` is the path-name of two different Signals"
+                raise RuntimeError(msg)
             elif key in m.signals:
                 target_sig = replace(
                     _copy_to_internal(m.signals[key]), name=new_sig_name
@@ -100,7 +108,7 @@ def walk(
         if isinstance(inst.of, (h.PrimitiveCall, h.ExternalModuleCall)):
             yield FlattenedInstance(inst, new_parents, new_conns)
         else:
-            yield from walk(inst.of, new_parents, new_conns, reserved)
+            yield from walk(inst.of, new_parents, new_conns, reserved, made)
 
 
 def _find_signal_or_port(m: h.Module, name: str) -> h.Signal:
